@@ -114,6 +114,10 @@ fn gen_bound(g: &mut Gen, known: &[Vec<u8>]) -> Option<Hx> {
     }
 }
 
+thread_local! {
+    static SWEEPS: std::cell::Cell<u32> = const { std::cell::Cell::new(0) };
+}
+
 fn gen_ops(g: &mut Gen, depth: usize, max_depth: usize, budget: &mut usize, known: &mut Vec<Vec<u8>>, sweep_w: u32) -> Vec<Op> {
     let mut ops = vec![];
     let n = 1 + g.below(10);
@@ -166,7 +170,15 @@ fn gen_ops(g: &mut Gen, depth: usize, max_depth: usize, budget: &mut usize, know
                 let body = gen_ops(g, depth + 1, max_depth, budget, known, sweep_w);
                 Op::Push { mode, body }
             }
-            _ => Op::Sweep,
+            _ => {
+                // exhaustive bound sweeps are expensive: at most two per program
+                if SWEEPS.with(|c| c.get()) < 2 {
+                    SWEEPS.with(|c| c.set(c.get() + 1));
+                    Op::Sweep
+                } else {
+                    Op::Get(Hx(gen_key(g)))
+                }
+            }
         };
         ops.push(op);
     }
@@ -522,6 +534,7 @@ impl Check for KvCheck {
             Tier::Quick => (6, 60usize, 1),
             Tier::Thorough => (8, 120usize, 2),
         };
+        SWEEPS.with(|c| c.set(0));
         let prog = gen_ops(g, 0, max_depth, &mut budget, &mut known, sweep_w);
         Case { base, prog }
     }
